@@ -414,6 +414,14 @@ def generate(seed, tier="quick"):
                 ops.append(["S", rnd.choice([1, 2, 5])])
             else:
                 ops.append(["X"])
+        ub_entries = [i for i, e in enumerate(pool) if "[UB" in e["text"] and "resolve" in e["evals"]]
+        if ub_entries and rnd.random() < 0.5:
+            # resolve an expression with a time condition, edit a token of the tree that came back (tokens carry what
+            # evaluation reads in their .value), resolve an expression with a time condition again
+            first, second = rnd.choice(ub_entries), rnd.choice(ub_entries)
+            where = rnd.randrange(len(ops) + 1)
+            ops[where:where] = [["R", "resolve", first], ["M", -1, rnd.choice([[], [0], [1], [0, 0]]), ["token_attr"]],
+                                ["R", rnd.choice(["resolve", "keys_t"]) if rnd.random() < 0.8 else "resolve", second]]
         if flood and index == 0:
             sizes = [200, 1100, 1100] + ([5000, 9000] if big and rnd.random() < 0.15 else [])
             ops.insert(rnd.randrange(len(ops) + 1), ["F", rnd.choice(sizes), rnd.choice(["cond", "cond", "ahb"])])
